@@ -235,7 +235,7 @@ impl SnapDataPlaneResolver for NoResolver {
     }
 }
 
-struct Impl { rt: tokio::runtime::Runtime, verifier: SnapTokenVerifier, router: axum::Router, rec: Arc<Recorder> }
+struct Impl { rt: tokio::runtime::Runtime, verifier: SnapTokenVerifier, jwks_verifier: Option<SnapTokenVerifier>, router: axum::Router, rec: Arc<Recorder> }
 impl Impl {
     fn new() -> Self {
         let rt = tokio::runtime::Builder::new_current_thread().enable_all().build().unwrap();
@@ -250,11 +250,32 @@ impl Impl {
                 snap_control::server::metrics::Metrics::new(&scion_sdk_observability::metrics::registry::MetricsRegistry::new()),
             ).unwrap()
         };
-        Impl { rt, verifier, router, rec }
+        // a second verifier with a JWKS store served from a local HTTP endpoint:
+        // kid k0 -> trusted test key, k1 -> the second key, hs -> an HMAC key (wrong family)
+        let jwks_verifier = rt.block_on(async {
+            let keys = Keys::new();
+            let x = |i: usize| URL_SAFE_NO_PAD.encode(keys.sk[i].verifying_key().as_bytes());
+            let jwks = serde_json::json!({"keys": [
+                {"kid": "k0", "kty": "OKP", "use": "sig", "alg": "EdDSA", "crv": "Ed25519", "x": x(0)},
+                {"kid": "k1", "kty": "OKP", "use": "sig", "alg": "EdDSA", "crv": "Ed25519", "x": x(1)},
+                {"kid": "hs", "kty": "oct", "alg": "HS256", "k": URL_SAFE_NO_PAD.encode(b"0123456789abcdef0123456789abcdef")}]});
+            let listener = tokio::net::TcpListener::bind("127.0.0.1:0").await.ok()?;
+            let addr = listener.local_addr().ok()?;
+            let app = axum::Router::new().route("/.well-known/jwks.json", axum::routing::get(move || { let j = jwks.clone(); async move { axum::Json(j) } }));
+            tokio::spawn(async move { let _ = axum::serve(listener, app).await; });
+            let url = format!("http://{addr}/.well-known/jwks.json").parse().ok()?;
+            let store = Arc::new(snap_control::server::jwks_key_store::JwksKeyStore::new(url, Duration::from_secs(3600), tokio_util::sync::CancellationToken::new()));
+            let probe = tokio::time::timeout(Duration::from_secs(10), store.await_key("k1")).await;
+            if !matches!(probe, Ok(Some(_))) { return None; }
+            let (_, dk) = snap_tokens::v0::insecure_const_snap_token_key_pair();
+            Some(SnapTokenVerifier::new(dk).with_jwks_store(store))
+        });
+        Impl { rt, verifier, jwks_verifier, router, rec }
     }
     /// (code, ver, exp)
-    fn verify(&self, tok: &str, sig_b64_ok: bool) -> (u64, u64, u64) {
-        let r = std::panic::catch_unwind(AssertUnwindSafe(|| self.rt.block_on(self.verifier.verify(tok))));
+    fn verify(&self, tok: &str, sig_b64_ok: bool, jwks: bool) -> (u64, u64, u64) {
+        let v = if jwks { self.jwks_verifier.as_ref().unwrap() } else { &self.verifier };
+        let r = std::panic::catch_unwind(AssertUnwindSafe(|| self.rt.block_on(v.verify(tok))));
         match r {
             Err(_) => (99, 0, 0),
             Ok(Ok(c)) => match c {
@@ -429,7 +450,9 @@ fn random_string(rng: &mut Rng) -> String {
 }
 
 fn main() {
-    silence_panics();
+    if std::env::var("VERIF_DEBUG").is_err() { silence_panics(); }
+    // the JWKS endpoint is on loopback: never through a proxy
+    unsafe { std::env::set_var("NO_PROXY", "127.0.0.1,localhost"); std::env::set_var("no_proxy", "127.0.0.1,localhost"); }
     let out = arg("--out").expect("--out");
     let n: usize = arg("--n").and_then(|x| x.parse().ok()).unwrap_or(600);
     let mut rng = Rng::new(seed_from_env());
@@ -476,6 +499,29 @@ fn main() {
                                      3 => "..".into(), 4 => format!("{}.", b.text), _ => format!(" {}", b.text) });
             t.label = format!("shape {l}"); t })));
     }
+    // JWKS configuration (verify() only): kid x signing key x version, then every header mutation
+    if im.jwks_verifier.is_some() {
+        for base in 0..2 { for key in 0..2usize { for kid in ["k0", "k1", "hs", "nope", ""] {
+            plan.push(("jwks:kid".into(), Box::new(move |now, _| {
+                let mut t = if base == 0 { base_v0(now) } else { base_v1(now) };
+                t.key = key; set(&mut t.hdr, "kid", s(kid));
+                t.label = format!("{} JWKS kid={kid} signed-by-key{key}", t.label); t })));
+        } } }
+        for base in 0..2 { for key in 0..2usize {
+            plan.push(("jwks:nokid".into(), Box::new(move |now, _| {
+                let mut t = if base == 0 { base_v0(now) } else { base_v1(now) };
+                t.key = key; t.label = format!("{} JWKS no-kid signed-by-key{key}", t.label); t })));
+        } }
+        for (i, (label, _)) in muts.iter().enumerate() {
+            if !(label.starts_with("alg") || label.starts_with("kid") || label.starts_with("typ") || label.starts_with("hdr") || label.starts_with("sig")
+                 || label.starts_with("nbf=") || label.starts_with("exp=") || label.starts_with("aud=") || label.starts_with("header")) { continue; }
+            let label = label.clone();
+            plan.push(("jwks:single".into(), Box::new(move |now, _| {
+                let mut t = base_v1(now); t.key = 1; set(&mut t.hdr, "kid", s("k1"));
+                let ms = mutations(); (ms[i].1)(&mut t, now);
+                t.label = format!("{} JWKS kid=k1 key1 then {}", t.label, label); t })));
+        }
+    } else { sum.count("jwks.unavailable"); }
     let directed = plan.len();
     // random: 1-3 mutations combined, and random strings
     while plan.len() < n.max(directed) {
@@ -510,8 +556,9 @@ fn main() {
                     if let Some(h) = h { if seg_is_object(h) { panic!("generator bug: whole-string case has a decodable header: {w}"); } } }
             }
             let (skeys, sig_b64_ok) = sig_keys(&b, &keys, three);
-            let (code, ver, exp) = im.verify(&b.text, sig_b64_ok);
-            let (status, life) = im.register(&b.text);
+            let jw = kind.starts_with("jwks:");
+            let (code, ver, exp) = im.verify(&b.text, sig_b64_ok, jw);
+            let (status, life) = if jw { (98, 0) } else { im.register(&b.text) };
             if now_secs() == now { break (now, t, b, code, ver, exp, status, life, skeys); }
         };
         let three = t.whole.is_none();
@@ -524,11 +571,12 @@ fn main() {
             }
             _ => { uuid_ok = false; p1_ok = false; }
         }
-        let case = format!("mkTCase {} {} {} {} {} {} None {} {} {} {} {}", now, header_coq(&t, &b, three), claims_coq(&t, &b, three),
+        let jw = if kind.starts_with("jwks:") { "(Some [(\"k0\", 0); (\"k1\", 1); (\"hs\", 2)])" } else { "None" };
+        let case = format!("mkTCase {} {} {} {} {} {} {jw} {} {} {} {} {}", now, header_coq(&t, &b, three), claims_coq(&t, &b, three),
             coq_list(skeys.iter().map(|k| k.to_string())), coq_bool(uuid_ok), coq_bool(p1_ok), code, ver, exp, status, life);
         sh.push(case);
         *codes.entry(code).or_insert(0) += 1;
-        sum.count(&format!("kind.{kind}"));
+        sum.count(&format!("kind.{}", kind.replace(':', "-")));
         sum.count(&format!("verify_code.{code}"));
         sum.count(&format!("router_status.{status}"));
         let human = format!("[{}] now={} token={} -> verify code {} router {} lifetime {}", t.label, now, b.text, code, status, life);
